@@ -35,3 +35,4 @@ def run(project, rep):
     T.t_r3(project, rep)
     T.t_r4(project, rep)
     T.t_r5(project, rep)
+    T.t_r7(project, rep)
